@@ -65,6 +65,8 @@ def power(x1: PolyLike, x2: PolyLike, **kwargs: Any) -> ndpoly:
             out = numpoly.multiply(out, x1, **kwargs)
 
     elif x1.shape:
+        x1 = numpoly.align_shape(x1, x2)[0]
+        x2 = numpy.array(numpy.broadcast_to(x2, x1.shape))
         if x2.shape[-1] == 1:
             if x1.shape[-1] == 1:
                 out = numpoly.power(x1.T[0].T, x2.T[0].T).T[numpy.newaxis].T
@@ -78,7 +80,7 @@ def power(x1: PolyLike, x2: PolyLike, **kwargs: Any) -> ndpoly:
             ).T
         else:
             out = numpoly.concatenate(
-                [power(x1_, x2_).T[numpy.newaxis] for x1_, x2_ in zip(x1.T, x2.T)],
+                [power(x1_, x2_)[numpy.newaxis] for x1_, x2_ in zip(x1.T, x2.T)],
                 axis=0,
             ).T
     else:
